@@ -131,6 +131,7 @@ def check_recipe(item):
     name = ("" if evaluate else "uneval:") + rstr(r)
     out = {"name": name, "recipe": r, "evaluate": evaluate, "queries": 0, "solver_s": 0.0, "paths": 0, "subs": []}
     ses = Session(None, timeout_ms=TIMEOUT_MS)
+    ses.generic_outside = True        # zero tests met while SymPy builds the tree (Abs(quantity) calls the collector) are decided at a generic point
     with ses.active(), rebound(*standard_bindings()):
         env = {"q": [make_quantity(ses.scalar(f"s{i}_"), ses.dim(f"D{i}_")) for i in range(3)], "n": ses.scalar("n"),
                "sym": sp.Symbol("x_free")}
@@ -369,6 +370,30 @@ def valued(vname, shape):
         return bool(same), f"scale {r.scale_factor} (expected {w}), dimension {r.dimension}"
     except Exception as ex:
         return False, f"raised {type(ex).__name__}: {ex}"
+# concrete magnitudes: SymPy evaluates Min/Max/comparisons of NUMERIC operands eagerly (through the library's own comparison hook), which
+# symbolic magnitudes never trigger.  Inequivalent dimensions must still be refused, equivalent ones accepted with the right value.
+def eager():
+    bad = []
+    five_m, three_s, two_km = (lambda: Quantity(5 * units.meter)), (lambda: Quantity(3 * units.second)), (lambda: Quantity(2 * units.kilometer))
+    for label, mk in (("Max(5 m, 3 s)", lambda: sp.Max(five_m(), three_s())), ("Min(5 m, 3 s)", lambda: sp.Min(five_m(), three_s())),
+                      ("Max(3 s, 5 m)", lambda: sp.Max(three_s(), five_m())), ("Max(5 m, 3 s) + 1 m", lambda: sp.Max(five_m(), three_s()) + Quantity(1 * units.meter)),
+                      ("Max(5 m, 3 s, 7 m)", lambda: sp.Max(five_m(), three_s(), Quantity(7 * units.meter)))):
+        try:
+            r = Quantity(mk())
+            bad.append(f"{label}: accepted with scale {r.scale_factor}, dimension {r.dimension} (terms of a min/max with inequivalent dimensions must be refused)")
+        except ValueError:
+            pass
+        except Exception as ex:
+            bad.append(f"{label}: raised {type(ex).__name__}: {ex}")
+    for label, mk, want in (("Max(5 m, 2 km)", lambda: sp.Max(five_m(), two_km()), 2000), ("Min(5 m, 2 km)", lambda: sp.Min(five_m(), two_km()), 5),
+                            ("Max(0 m, 3 s)", lambda: sp.Max(Quantity(0 * units.meter), three_s()), 3)):
+        try:
+            r = Quantity(mk())
+            if abs(sp.N(r.scale_factor) - want) > 1e-9:
+                bad.append(f"{label}: scale {r.scale_factor}, expected {want}")
+        except Exception as ex:
+            bad.append(f"{label}: raised {type(ex).__name__}: {ex}")
+    return bad
 # prefixes are leaves of the expression grammar too: number * prefix * unit, decimal and binary
 def prefixed():
     from sympy.physics.units import prefixes as P
@@ -427,6 +452,11 @@ def concrete_specials(ctx):
             else:
                 ctx.violation(f"C05:special-value:{vname}:{shape}", f"{shape} with q = {vname} m: {text}; the scale factor must be the value of the expression",
                               REPLAY_SPECIAL.replace("ok, text = special(@VNAME@, @SHAPE@)", "ok, text = valued(@VNAME@, @SHAPE@)").replace("@VNAME@", repr(vname)).replace("@SHAPE@", repr(shape)))
+    bade = ns["eager"]()
+    if bade:
+        ctx.violation("C05:eager-min-max", "; ".join(bade[:4]) + f" ({len(bade)} cases)", SPECIAL_SRC + "\nimport sys\nb = eager()\nprint(b)\nif b:\n    print('REPRODUCED'); sys.exit(1)\n")
+    else:
+        ctx.ob("numeric Min/Max operands (eagerly evaluated by SymPy): inequivalent refused, equivalent valued", "discharged", nontrivial=False)
     badp = ns["prefixed"]()
     if badp:
         ctx.violation("C05:prefix-leaves", "; ".join(badp[:4]) + f" ({len(badp)} cases)", SPECIAL_SRC + "\nimport sys\nb = prefixed()\nprint(b)\nif b:\n    print('REPRODUCED'); sys.exit(1)\n")
